@@ -82,5 +82,5 @@ package signature
 
 //@ func NewContext
 //@   trusted
-//@   ensures ChainSep(result) == (exists j int :: 0 <= j && j < len(opts) && IsChainSepOpt(opts[j]))
+//@   ensures ChainSep(result) == old(exists j int :: 0 <= j && j < len(opts) && IsChainSepOpt(opts[j]))
 //@   note registers the context with the options applied in order; ChainSep(c) is "the registry entry of c has chainSeparation set" (the link to PrepareSignerContext's opts.chainSeparation is the sync.Map registry, which is not modelled)
